@@ -78,8 +78,35 @@ def parents():
     return [root, a, NamespaceTree(a, ns_ids_t('B.C'))]
 
 
+def documents():
+    c = corpus()
+    en, si, ex = c['parse_enum'], c['parse_subint'], c['parse_extern']
+    itf, comp, sys_, frn = c['parse_interface'], c['parse_component'], c['parse_system'], c['parse_foreign']
+    misc = [{'<class>': 'import', 'name': 'a.dzn'}, {'<class>': 'file-name', 'name': 'f.dzn'}, 7, 'text', None,
+            {'<class>': 'weird', 'x': 1}]
+    flat = en + si + ex + itf + comp + sys_ + frn + misc
+    nested = [M.namespace('A', flat[:5] + [M.namespace('B.C', itf + si + [M.namespace('D', en)]), misc[0]]),
+              itf[0], M.namespace('A', sys_ + comp), M.namespace('E', [])]
+    return [M.root([]), M.root(flat), M.root(nested), M.root(nested[::-1] + flat),
+            dict(M.root(misc), comment={'<class>': 'comment', 'string': 'c'})]
+
+
+def check_documents(inp):
+    import json
+    for k, doc in enumerate(documents()):
+        if inp.get('case') is not None and inp['case'] != k:
+            continue
+        fct = J.DznJsonAst(json.dumps(doc)).process()
+        for kind in S.KINDS:
+            got, want = getattr(fct, kind), S.document_decls(kind, doc)
+            if got != want:
+                fail(f'process() [document {k}]: FileContents.{kind} is\n{got!r}\nthe contract requires\n{want!r}')
+
+
 def check_one(inp):
     fn = inp['function'].rsplit('.', 1)[-1]
+    if fn in ('parse_element', 'process'):
+        return check_documents(inp)
     if fn not in SPEC:
         print('no native corpus for', fn)
         raise SystemExit(2)
